@@ -67,7 +67,11 @@ type caseT struct {
 func isScalar(g any) bool {
 	m, _ := g.(map[string]any)
 	switch m["k"] {
-	case "slice", "map", "struct":
+	case "ptr":
+		return isScalar(m["to"])
+	case "named":
+		return isScalar(m["base"])
+	case "slice", "map", "struct", "imap", "nstruct":
 		return false
 	}
 	return true
@@ -75,6 +79,9 @@ func isScalar(g any) bool {
 
 // Mutate, when set (self-test), corrupts the adapter: see SelfTest.
 var mutate atomic.Bool
+
+// lastPanic keeps the text of the most recent Go panic for violation reports (the text is not compared).
+var lastPanic atomic.Value
 
 func parseObj(s string) (any, error) {
 	var v any
@@ -398,7 +405,8 @@ func (b *vmBox) execute(l *line, fresh bool) (obs any, src string, err error) {
 	})
 	if p != nil {
 		b.vm = nil
-		return M{"gopanic": fmt.Sprint(p)}, src, nil
+		lastPanic.Store(fmt.Sprint(p))
+		return M{"gopanic": true}, src, nil
 	}
 	return m, src, err
 }
@@ -528,6 +536,9 @@ func replay(c *core.Ctx, ch chan []byte, st *stats, samples *[]any, report bool)
 				atomic.AddInt64(&rejected, 1)
 				if report {
 					detail := fmt.Sprintf("case %s %s => %s", trunc(string(l.C), 400), src, diff(obs, l.Exp))
+					if m, ok := obs.(M); ok && m["gopanic"] == true {
+						detail += fmt.Sprintf(" (a Go panic escaped; most recent panic text: %v)", lastPanic.Load())
+					}
 					c.Violate(detail, M{"case": l.C, "js": src, "observed": obs, "expected": l.Exp})
 				}
 			}
